@@ -1,10 +1,11 @@
 (* Properties/C16.v — Unit formatting and parsing are inverse; parsing never returns a wrong
    number.  Statements only; every proof is `exact <lemma>`. *)
-From Coq Require Import ZArith List.
-From Verif Require Import Base.Prelude Base.Str Schema.Regex Schema.Units Generated.Tables
-  Proofs.UnitsArith Proofs.UnitsSweep Proofs.UnitsBuiltin.
+From Coq Require Import ZArith List Ascii String.
+From Verif Require Import Base.Prelude Base.Str Base.Float Schema.Regex Schema.Units Schema.FloatUnits Generated.Tables
+  Proofs.UnitsArith Proofs.UnitsSweep Proofs.UnitsBuiltin Proofs.UnitsFloat.
 Import ListNotations.
 Open Scope Z_scope.
+Open Scope list_scope.
 
 (* (1) Formatting, arithmetic level, unbounded: for ANY list of positive multipliers and any
    n >= 0 the greedy decomposition the formatter prints sums back to n exactly. *)
@@ -56,6 +57,48 @@ Example C16_overflow_is_error :
   parse_units_int unit_duration_seconds "153722867280912931m" = None
   /\ parse_units_int unit_duration_seconds "5m30s" = Some 330.
 Proof. vm_compute. split; reflexivity. Qed.
+
+(* (4) The float side, number rendering: every count the float formatters print goes through
+   trimFraction(fmt.Sprintf("%f", x)) (fmt_f_trim).  trimFraction never removes a significant
+   digit: on a decimal rendering  ip "." fp  it returns ip UNTOUCHED followed by fp without its
+   trailing zeros (without the point when nothing is left of the fraction), so the fraction keeps
+   its value  fp / 10^|fp| = fp' / 10^|fp'|.  For any ip, fp free of further points. *)
+Theorem C16_trim_fraction_exact : forall ip fp, has_dot ip = false -> has_dot fp = false ->
+  trim_fraction (ip ++ "."%char :: fp) = ip ++ frac_part (trim_right is0 fp).
+Proof. exact trim_fraction_spec. Qed.
+Print Assumptions C16_trim_fraction_exact.
+
+Theorem C16_trim_fraction_keeps_value : forall ip fp, has_dot ip = false -> has_dot fp = false ->
+  exists fp' k,
+    trim_fraction (ip ++ "."%char :: fp) = ip ++ frac_part fp'
+    /\ List.length fp = (List.length fp' + k)%nat
+    /\ digits_val fp = digits_val fp' * 10 ^ Z.of_nat k.
+Proof. exact trim_fraction_keeps_value. Qed.
+Print Assumptions C16_trim_fraction_keeps_value.
+
+(* ... and that is what the formatter model prints for EVERY finite float64 (sign s, mantissa m,
+   exponent e): the %f rendering has the shape  ip "." fp, the integer part is printed intact. *)
+Theorem C16_float_count_rendering : forall s m e, exists ip fp fp' k,
+  chars (fmt_f (FFin s m e)) = ip ++ "."%char :: fp
+  /\ fmt_f_trim (FFin s m e) = unchars (ip ++ frac_part fp')
+  /\ List.length fp = (List.length fp' + k)%nat
+  /\ digits_val fp = digits_val fp' * 10 ^ Z.of_nat k.
+Proof. exact fmt_f_trim_finite. Qed.
+Print Assumptions C16_float_count_rendering.
+
+(* non-vacuity, and the difference to a single TrimRight with the merged cutset "0." *)
+Example C16_trim_fraction_examples :
+  has_dot (chars "10") = false /\ has_dot (chars "000000") = false
+  /\ trim_fraction (chars "10" ++ "."%char :: chars "000000") = chars "10"
+  /\ trim_fraction (chars "10.500000") = chars "10.5"
+  /\ fmt_f_trim (fl_of_Z b64 10) = "10"%string /\ fmt_f_trim (FZero false) = "0"%string
+  /\ trim_fraction_merged (chars "10.000000") = chars "1".
+Proof. vm_compute. repeat split; reflexivity. Qed.
+
+(* NOT proved for the float side: the float round trip itself (format_float then
+   parse_units_float within tolerance) — it depends on the correctly rounded division, floor and
+   subtraction of the decomposition; it is carried by the correspondence family (fmtfloat cases,
+   direct tolerance check) only. *)
 
 (* NOT proved (partial): the string-level round trip for ARBITRARY definitions.  It is false
    as stated when two units share a name or a name is a count-prefix of another's token
